@@ -94,7 +94,8 @@ Proof.
 Qed.
 
 Lemma first_run_spec ws a b : first_run p ws = Some (a, b) ->
-  exists l1 l2 l3, ws = l1 ++ l2 ++ l3 /\ forallb (fun c => negb (p c)) l1 = true /\ forallb p l2 = true /    l2 <> [] /\ stops l3 /\ a = len l1 /\ b = len l1 + len l2 - 1.
+  exists l1 l2 l3, ws = l1 ++ l2 ++ l3 /\ forallb (fun c => negb (p c)) l1 = true /\ forallb p l2 = true /\
+    l2 <> [] /\ stops l3 /\ a = len l1 /\ b = len l1 + len l2 - 1.
 Proof.
   unfold first_run. intros H. apply run_scan_spec in H; [|lia].
   destruct H as (l1 & l2 & l3 & E & H1 & H2 & H3 & H4 & -> & ->). exists l1, l2, l3. repeat split; try assumption; lia.
@@ -104,3 +105,384 @@ Lemma first_run_none ws : first_run p ws = None -> forallb (fun c => negb (p c))
 Proof. unfold first_run. apply run_scan_none. lia. Qed.
 
 End Run.
+
+(* ------------------------------------------- the shape of every split *)
+
+Lemma drive_fuel_labelled (mids : list section) :
+  Forall (fun x => snd x <> None) mids -> drive_fuel mids = length mids.
+Proof.
+  induction 1 as [|[t [l|]] r Hx Hr IH]; [reflexivity| |simpl in Hx; congruence].
+  rewrite drive_fuel_cons, IH. reflexivity.
+Qed.
+
+Lemma drive_fuel_osec l : (drive_fuel (osec l) <= 3 * length l + 1)%nat.
+Proof. destruct l; simpl; unfold drive_fuel, sec_weight; simpl; lia. Qed.
+
+Section Shape.
+Variable pm : str -> section -> Prop.
+Hypothesis pm_unlab : forall piece s, pm piece (s, None) <-> piece = s.
+Variable Inv : str -> Prop.
+Variable Q : section -> Prop.
+
+Lemma tiles_osec l : tiles pm l (osec l).
+Proof.
+  destruct l as [|c l]; [apply tiles_nil|]. rewrite osec_cons.
+  exists [c :: l]. split; [simpl; now rewrite app_nil_r|]. constructor; [now apply pm_unlab|constructor].
+Qed.
+
+(* [osec l1 ++ mids ++ osec l3] for the cut l1 ++ M ++ l3, the labelled
+   sections [mids] tiling M *)
+Lemma shape_split_ok l1 M l3 mids :
+  tiles pm M mids -> M <> [] -> (length mids <= length M)%nat ->
+  Forall (fun x => snd x <> None) mids -> Forall Q mids ->
+  (l1 <> [] -> Inv l1 /\ Q (l1, None)) -> (l3 <> [] -> Inv l3 /\ Q (l3, None)) ->
+  split_ok pm Inv Q (l1 ++ M ++ l3) (osec l1 ++ mids ++ osec l3).
+Proof.
+  intros Ht HM Hlen Hlab Hq H1 H3. unfold split_ok. repeat split.
+  - apply tiles_app; [apply tiles_osec|]. apply tiles_app; [assumption|apply tiles_osec].
+  - rewrite !drive_fuel_app, (drive_fuel_labelled mids Hlab), !app_length.
+    pose proof (drive_fuel_osec l1). pose proof (drive_fuel_osec l3).
+    destruct M; [congruence|]. simpl in *. lia.
+  - unfold unlab_all. rewrite !Forall_app. repeat split.
+    + destruct l1; [constructor|]. rewrite osec_cons. constructor; [|constructor]. intros _. now apply H1.
+    + eapply Forall_impl; [|exact Hlab]. intros x Hx E. congruence.
+    + destruct l3; [constructor|]. rewrite osec_cons. constructor; [|constructor]. intros _. now apply H3.
+  - rewrite !Forall_app. repeat split; [|assumption|].
+    + destruct l1; [constructor|]. rewrite osec_cons. constructor; [|constructor]. now apply H1.
+    + destruct l3; [constructor|]. rewrite osec_cons. constructor; [|constructor]. now apply H3.
+Qed.
+
+End Shape.
+
+(* ------------------------------------------------------------------ digit *)
+
+Section Digit.
+Variable isdigit : N -> bool.
+
+Lemma detect_digits_spec s p f : detect_digits isdigit s = DYes p f ->
+  exists l1 l2 l3, s = l1 ++ l2 ++ l3 /\ forallb (fun c => negb (isdigit c)) l1 = true /\
+    forallb isdigit l2 = true /\ l2 <> [] /\ stops isdigit l3 /\
+    p = osec l1 ++ [(l2, Some (LD (len l2)))] ++ osec l3 /\ f = l2.
+Proof.
+  unfold detect_digits. destruct (first_run isdigit s) as [[a b]|] eqn:E; [|discriminate].
+  apply first_run_spec in E. destruct E as (l1 & l2 & l3 & Es & H1 & H2 & Hne & H3 & -> & ->).
+  intros H. injection H as <- <-. exists l1, l2, l3.
+  replace (len l1 + len l2 - 1 + 1) with (len l1 + len l2) by lia.
+  rewrite (pre_osec s l1 (l2 ++ l3) Es). subst s. rewrite slice_app3, sfrom_app3.
+  repeat split; try assumption.
+  f_equal. f_equal.
+  rewrite !len_app. pose proof (len_nonneg l3).
+  destruct l3 as [|c l3]; simpl.
+  - rewrite len_nil. replace (len l1 + len l2 - 1 =? len l1 + (len l2 + 0) - 1) with true; [reflexivity|].
+    symmetry. apply Z.eqb_eq. lia.
+  - rewrite len_cons. pose proof (len_nonneg l3).
+    replace (len l1 + len l2 - 1 =? len l1 + (len l2 + (1 + len l3)) - 1) with false; [reflexivity|].
+    symmetry. apply Z.eqb_neq. lia.
+Qed.
+
+Lemma detect_digits_none s : detect_digits isdigit s = DNo -> forallb (fun c => negb (isdigit c)) s = true.
+Proof.
+  unfold detect_digits. destruct (first_run isdigit s) as [[a b]|] eqn:E; [discriminate|].
+  intros _. now apply first_run_none.
+Qed.
+
+Lemma detect_digits_no_err s : detect_digits isdigit s <> DErr.
+Proof. unfold detect_digits. destruct (first_run isdigit s) as [[a b]|]; discriminate. Qed.
+
+End Digit.
+
+(* ------------------------------------------------------------------ alpha *)
+
+Section Alpha.
+Variables isalpha isupper : N -> bool.
+Variable lower_c : N -> str.
+Notation lower := (Multiword.lower lower_c).
+Notation lenp := (len_preserving lower_c).
+
+(* a prefix of lower(rest) is the image of a prefix of rest *)
+Lemma lower_split : forall w rest z, lenp rest -> lower rest = w ++ z ->
+  exists r1 r2, rest = r1 ++ r2 /\ lower r1 = w /\ lower r2 = z.
+Proof.
+  induction w as [|x w IH]; intros rest z Hp H.
+  - exists [], rest. repeat split. exact H.
+  - destruct rest as [|c rest]; [discriminate|]. inversion Hp as [|? ? Hc Hr]; subst.
+    unfold Multiword.lower in H. simpl in H.
+    destruct (lower_c c) as [|y [|? ?]] eqn:Ec; try discriminate. simpl in H. injection H as -> H.
+    destruct (IH rest z Hr H) as (r1 & r2 & -> & H1 & H2).
+    exists (c :: r1), r2. repeat split; [|assumption].
+    unfold Multiword.lower. simpl. rewrite Ec. simpl. f_equal. exact H1.
+Qed.
+
+Lemma alpha_words_spec s : forall words l1 done rest l3 secs masks,
+  s = l1 ++ done ++ rest ++ l3 -> lenp rest -> concat words = lower rest ->
+  alpha_words isupper s (len l1 + len done) words = (secs, masks) ->
+  exists pieces, concat pieces = rest /\ map lower pieces = words /\
+    secs = map (fun pc => (pc, Some (LA (len (lower pc))))) pieces /\ masks = map (case_mask isupper) pieces.
+Proof.
+  induction words as [|w ws IH]; intros l1 done rest l3 secs masks Es Hp Hc H; simpl in H.
+  - injection H as <- <-. simpl in Hc. exists []. repeat split.
+    symmetry in Hc. destruct rest as [|c rest]; [reflexivity|]. exfalso.
+    inversion Hp as [|? ? Hcl _]; subst. unfold Multiword.lower in Hc. simpl in Hc.
+    destruct (lower_c c); simpl in *; [discriminate|discriminate].
+  - simpl in Hc. symmetry in Hc. destruct (lower_split w rest (concat ws) Hp Hc) as (r1 & r2 & -> & H1 & H2).
+    apply len_preserving_app in Hp. destruct Hp as (Hp1 & Hp2).
+    assert (Hlw : len w = len r1) by (rewrite <- H1; now apply lower_len).
+    destruct (alpha_words isupper s (len l1 + len done + len w) ws) as [secs' masks'] eqn:Er.
+    injection H as <- <-.
+    assert (Epiece : slice s (len l1 + len done) (len l1 + len done + len w) = r1).
+    { subst s. rewrite Hlw. replace (len l1 + len done) with (len (l1 ++ done)) by (rewrite len_app; lia).
+      replace (l1 ++ done ++ (r1 ++ r2) ++ l3) with ((l1 ++ done) ++ r1 ++ (r2 ++ l3)) by (now rewrite <- !app_assoc).
+      apply slice_app3. }
+    destruct (IH l1 (done ++ r1) r2 l3 secs' masks') as (pieces & Hcp & Hmp & -> & ->).
+    + subst s. now rewrite <- !app_assoc.
+    + assumption.
+    + now symmetry.
+    + rewrite len_app, <- Hlw. rewrite <- Er. f_equal. lia.
+    + exists (r1 :: pieces). simpl. rewrite Epiece, Hcp, Hmp, H1. repeat split.
+Qed.
+
+Variable mwparse : str -> option (bool * list str).
+
+Hypothesis mw_concat : forall x b ws, mwparse x = Some (b, ws) -> concat ws = x.
+
+Lemma detect_alpha_spec s p f : lenp s -> detect_alpha isalpha isupper lower_c mwparse s = DYes p f ->
+  exists l1 l2 l3 pieces b, s = l1 ++ l2 ++ l3 /\ l2 <> [] /\
+    forallb (fun c => negb (isalpha c)) (lower l1) = true /\ forallb isalpha (lower l2) = true /\
+    stops isalpha (lower l3) /\
+    mwparse (lower l2) = Some (b, map lower pieces) /\ concat pieces = l2 /\ pieces <> [] /\
+    p = osec l1 ++ map (fun pc => (pc, Some (LA (len pc)))) pieces ++ osec l3 /\
+    f = (map lower pieces, map (case_mask isupper) pieces).
+Proof.
+  intros Hp. unfold detect_alpha.
+  destruct (first_run isalpha (lower s)) as [[a b]|] eqn:E; [|discriminate].
+  apply first_run_spec in E. destruct E as (L1 & L2 & L3 & Es & H1 & H2 & Hne & H3 & -> & ->).
+  destruct (lower_split L1 s (L2 ++ L3) Hp Es) as (l1 & r & -> & El1 & Er).
+  apply len_preserving_app in Hp. destruct Hp as (Hp1 & Hpr).
+  destruct (lower_split L2 r L3 Hpr Er) as (l2 & l3 & -> & El2 & El3).
+  apply len_preserving_app in Hpr. destruct Hpr as (Hp2 & Hp3).
+  assert (Hl1 : len L1 = len l1) by (rewrite <- El1; now apply lower_len).
+  assert (Hl2 : len L2 = len l2) by (rewrite <- El2; now apply lower_len).
+  replace (len L1 + len L2 - 1 + 1) with (len L1 + len L2) by lia.
+  rewrite Es, slice_app3.
+  destruct (mwparse L2) as [[b words]|] eqn:Em; [|discriminate].
+  destruct (alpha_words isupper (l1 ++ l2 ++ l3) (len L1) words) as [secs masks] eqn:Ea.
+  destruct (nonempty words) eqn:Enw; [|discriminate]. apply nonempty_true in Enw.
+  intros H. injection H as <- <-.
+  assert (Hl2ne : l2 <> []). { intros ->. apply Hne. now rewrite <- El2. }
+  pose proof (mw_concat _ _ _ Em) as Hcw.
+  destruct (alpha_words_spec (l1 ++ l2 ++ l3) words l1 [] l2 l3 secs masks) as (pieces & Hcp & Hmp & -> & ->).
+  - reflexivity.
+  - assumption.
+  - now rewrite Hcw, El2.
+  - rewrite len_nil, Z.add_0_r, <- Hl1. exact Ea.
+  - exists l1, l2, l3, pieces, b. subst words. rewrite El2.
+    repeat split; try assumption; try (now rewrite ?El1, ?El2, ?El3).
+    + intros ->. now apply Enw.
+    + rewrite Hl1. rewrite (pre_osec (l1 ++ l2 ++ l3) l1 (l2 ++ l3) eq_refl). f_equal.
+      rewrite Hl2, sfrom_app3. f_equal.
+      * apply map_ext_in. intros pc Hin. f_equal. f_equal. f_equal. apply lower_len.
+        assert (Hpp : lenp (concat pieces)) by (now rewrite Hcp).
+        clear -Hin Hpp. induction pieces as [|q ps IH]; [contradiction|]. simpl in Hpp.
+        apply len_preserving_app in Hpp. destruct Hpp as (Hq & Hps). destruct Hin as [->|Hin]; [assumption|now apply IH].
+      * rewrite !len_app. pose proof (len_nonneg l3).
+        destruct l3 as [|c l3]; simpl.
+        -- rewrite len_nil. replace (len l1 + len l2 - 1 =? len l1 + (len l2 + 0) - 1) with true; [reflexivity|].
+           symmetry. apply Z.eqb_eq. lia.
+        -- rewrite len_cons. pose proof (len_nonneg l3).
+           replace (len l1 + len l2 - 1 =? len l1 + (len l2 + (1 + len l3)) - 1) with false; [reflexivity|].
+           symmetry. apply Z.eqb_neq. lia.
+Qed.
+
+Lemma detect_alpha_none s : detect_alpha isalpha isupper lower_c mwparse s = DNo ->
+  (forall x, x <> [] -> mwparse x <> None) -> (forall x b, mwparse x <> Some (b, [])) ->
+  forallb (fun c => negb (isalpha c)) (lower s) = true.
+Proof.
+  unfold detect_alpha. intros H Htot Hne.
+  destruct (first_run isalpha (lower s)) as [[a b]|] eqn:E; [|now apply first_run_none].
+  exfalso. destruct (mwparse (slice (lower s) a (b + 1))) as [[bb words]|] eqn:Em; [|discriminate].
+  destruct (alpha_words isupper s a words) as [secs masks].
+  destruct words as [|w ws]; [|discriminate]. now apply (Hne _ _ Em).
+Qed.
+
+End Alpha.
+
+Lemma detect_alpha_no_err isalpha isupper lower_c mwparse s :
+  (forall x, mwparse x <> None) -> detect_alpha isalpha isupper lower_c mwparse s <> DErr.
+Proof.
+  intros Htot. unfold detect_alpha.
+  destruct (first_run isalpha (Multiword.lower lower_c s)) as [[a b]|]; [|discriminate].
+  destruct (mwparse _) as [[bb words]|] eqn:Em; [|now apply Htot in Em].
+  destruct (alpha_words isupper s a words). destruct (nonempty words); discriminate.
+Qed.
+
+(* ---------------------------------------------------------------- context *)
+
+Section Context.
+Variable isdigit : N -> bool.
+
+Lemma detect_context_spec : forall rs s p f, detect_context isdigit rs s = DYes p f ->
+  exists l1 l3, s = l1 ++ f ++ l3 /\ In f rs /\ f <> [] /\ p = osec l1 ++ [(f, Some LX)] ++ osec l3.
+Proof.
+  induction rs as [|r rs IH]; intros s p f H; simpl in H; [discriminate|].
+  destruct (find s r =? -1) eqn:Ef.
+  { destruct (IH _ _ _ H) as (l1 & l3 & ? & ? & ?). exists l1, l3. repeat split; try tauto. now right. }
+  apply Z.eqb_neq in Ef.
+  destruct (find_spec s r _ eq_refl Ef) as (l1 & l3 & Es & Ei).
+  match type of H with match ?fp with _ => _ end = _ => destruct fp as [[|]|] eqn:Efp end; [| |discriminate].
+  { destruct (IH _ _ _ H) as (l1' & l3' & ? & ? & ?). exists l1', l3'. repeat split; try tauto. now right. }
+  destruct (nonempty r) eqn:Enr; [|discriminate]. apply nonempty_true in Enr.
+  injection H as <- <-. exists l1, l3. rewrite Ei.
+  rewrite (pre_osec s l1 (r ++ l3) Es). subst s. rewrite slice_app3, sfrom_app3.
+  repeat split; try assumption; [now left|]. f_equal. f_equal.
+  rewrite !len_app. destruct l3 as [|c l3]; simpl.
+  - rewrite len_nil. replace (len l1 + len r <? len l1 + (len r + 0)) with false; [reflexivity|].
+    symmetry. apply Z.ltb_ge. lia.
+  - rewrite len_cons. pose proof (len_nonneg l3).
+    replace (len l1 + len r <? len l1 + (len r + (1 + len l3))) with true; [reflexivity|].
+    symmetry. apply Z.ltb_lt. lia.
+Qed.
+
+Lemma detect_context_no_err : forall rs s, detect_context isdigit rs s <> DErr.
+Proof.
+  induction rs as [|r rs IH]; intros s; simpl; [discriminate|].
+  destruct (find s r =? -1) eqn:Ef; [apply IH|]. apply Z.eqb_neq in Ef.
+  destruct (find_bounds s r _ eq_refl Ef) as (H0 & Hb).
+  destruct (str_eqb r hash_one).
+  - destruct (find s r <? len s - 3) eqn:El.
+    + apply Z.ltb_lt in El. destruct (getc_some s (find s r + 3) ltac:(lia)) as (a & x & c & _ & _ & ->).
+      destruct (isdigit x); [apply IH|]. destruct (nonempty r); discriminate.
+    + destruct (nonempty r); discriminate.
+  - destruct (nonempty r); discriminate.
+Qed.
+
+End Context.
+
+(* ------------------------------------------------------------------- year *)
+
+Section Year.
+Variable isdigit : N -> bool.
+
+(* what the year loop accepts at position i *)
+Definition year_at (ws prefix : str) (i : Z) : Prop :=
+  exists l1 c2 c3 l3, ws = l1 ++ (prefix ++ [c2; c3]) ++ l3 /\ len l1 = i /\ len prefix = 2 /\
+    isdigit c2 = true /\ isdigit c3 = true.
+
+Lemma year_loop_spec : forall fuel ws prefix start i, len prefix = 2 -> 0 <= start ->
+  year_loop isdigit fuel ws prefix start = Some (Some i) -> year_at ws prefix i.
+Proof.
+  induction fuel as [|f IH]; intros ws prefix start i Hpl Hs H; simpl in H; [discriminate|].
+  destruct (find (sfrom ws start) prefix =? -1) eqn:Ef; [discriminate|]. apply Z.eqb_neq in Ef.
+  set (si := find (sfrom ws start) prefix + start) in *.
+  destruct (len ws <? si + 4) eqn:El; [discriminate|]. apply Z.ltb_ge in El.
+  destruct (find_bounds _ _ _ eq_refl Ef) as (Hf0 & Hfb).
+  assert (Hsl : start <= len ws) by (destruct (Z_le_gt_dec start (len ws)); [assumption|]; rewrite sfrom_over in Hfb by lia; rewrite len_nil in Hfb; lia).
+  assert (Hcut : slice ws 0 start ++ sfrom ws start = ws) by (apply slice_cut2; lia).
+  destruct (find_spec _ _ _ eq_refl Ef) as (a & c & Esf & Ea).
+  assert (Hrec : forall r, year_loop isdigit f ws prefix (si + 2) = Some (Some r) -> year_at ws prefix r)
+    by (intros r; apply IH; [assumption|unfold si; lia]).
+  (* the two characters after the prefix *)
+  assert (Hlen_a : len (slice ws 0 start) = start) by (rewrite slice_len; lia).
+  assert (Ews : ws = (slice ws 0 start ++ a) ++ prefix ++ c) by (rewrite <- app_assoc, <- Esf; now symmetry).
+  assert (Hsi : si = len (slice ws 0 start ++ a)) by (unfold si; rewrite len_app; lia).
+  assert (Hc : 2 <= len c).
+  { assert (len ws = len (slice ws 0 start ++ a) + (len prefix + len c)) by (rewrite Ews at 1; now rewrite !len_app). lia. }
+  destruct c as [|c2 [|c3 l3]]; try (rewrite ?len_cons, ?len_nil in Hc; lia).
+  assert (G2 : getc ws (si + 2) = Some c2).
+  { rewrite Ews, Hsi. replace (len (slice ws 0 start ++ a) + 2) with (len ((slice ws 0 start ++ a) ++ prefix)) by (rewrite (len_app _ prefix); lia).
+    rewrite app_assoc. apply getc_app_mid. }
+  assert (G3 : getc ws (si + 3) = Some c3).
+  { rewrite Ews, Hsi.
+    replace (len (slice ws 0 start ++ a) + 3) with (len ((slice ws 0 start ++ a) ++ prefix ++ [c2])) by (rewrite !len_app, len_cons, len_nil; lia).
+    replace ((slice ws 0 start ++ a) ++ prefix ++ c2 :: c3 :: l3) with (((slice ws 0 start ++ a) ++ prefix ++ [c2]) ++ c3 :: l3)
+      by (rewrite <- !app_assoc; reflexivity).
+    apply getc_app_mid. }
+  match type of H with match ?pd with _ => _ end = _ => destruct pd as [[|]|] eqn:Epd end; [now apply Hrec| |discriminate].
+  match type of H with match ?nd with _ => _ end = _ => destruct nd as [[|]|] eqn:End end; [now apply Hrec| |discriminate].
+  rewrite G2 in H. destruct (isdigit c2) eqn:E2; [|now apply Hrec].
+  rewrite G3 in H. destruct (isdigit c3) eqn:E3; [|now apply Hrec].
+  injection H as <-. exists (slice ws 0 start ++ a), c2, c3, l3. repeat split; try assumption.
+  - rewrite Ews at 1. now rewrite <- !app_assoc.
+  - now symmetry.
+Qed.
+
+Lemma year_loop_fuel : forall fuel ws prefix start, 0 <= start ->
+  (Z.to_nat (len ws + 1 - start) < fuel)%nat -> year_loop isdigit fuel ws prefix start <> None.
+Proof.
+  induction fuel as [|f IH]; intros ws prefix start Hs Hf; [lia|]. simpl.
+  destruct (find (sfrom ws start) prefix =? -1) eqn:Ef; [discriminate|]. apply Z.eqb_neq in Ef.
+  destruct (find_ge (sfrom ws start) prefix) as [?|Hge]; [congruence|].
+  set (si := find (sfrom ws start) prefix + start) in *.
+  destruct (len ws <? si + 4) eqn:El; [discriminate|]. apply Z.ltb_ge in El.
+  assert (Hrec : year_loop isdigit f ws prefix (si + 2) <> None) by (apply IH; unfold si in *; lia).
+  assert (Hsi : 0 <= si) by (unfold si; lia).
+  destruct (si =? 0) eqn:E0.
+  - destruct (si + 4 <? len ws) eqn:E4.
+    + apply Z.ltb_lt in E4. destruct (getc_some ws (si + 4) ltac:(lia)) as (? & dg4 & ? & _ & _ & ->).
+      destruct (isdigit dg4); [assumption|].
+      destruct (getc_some ws (si + 2) ltac:(lia)) as (? & dg2 & ? & _ & _ & ->).
+      destruct (isdigit dg2); [|assumption].
+      destruct (getc_some ws (si + 3) ltac:(lia)) as (? & dg3 & ? & _ & _ & ->).
+      destruct (isdigit dg3); [discriminate|assumption].
+    + destruct (getc_some ws (si + 2) ltac:(lia)) as (? & dg2 & ? & _ & _ & ->).
+      destruct (isdigit dg2); [|assumption].
+      destruct (getc_some ws (si + 3) ltac:(lia)) as (? & dg3 & ? & _ & _ & ->).
+      destruct (isdigit dg3); [discriminate|assumption].
+  - apply Z.eqb_neq in E0. destruct (getc_some ws (si - 1) ltac:(lia)) as (? & dg1 & ? & _ & _ & ->).
+    destruct (isdigit dg1); [assumption|].
+    destruct (si + 4 <? len ws) eqn:E4.
+    + apply Z.ltb_lt in E4. destruct (getc_some ws (si + 4) ltac:(lia)) as (? & dg4 & ? & _ & _ & ->).
+      destruct (isdigit dg4); [assumption|].
+      destruct (getc_some ws (si + 2) ltac:(lia)) as (? & dg2 & ? & _ & _ & ->).
+      destruct (isdigit dg2); [|assumption].
+      destruct (getc_some ws (si + 3) ltac:(lia)) as (? & dg3 & ? & _ & _ & ->).
+      destruct (isdigit dg3); [discriminate|assumption].
+    + destruct (getc_some ws (si + 2) ltac:(lia)) as (? & dg2 & ? & _ & _ & ->).
+      destruct (isdigit dg2); [|assumption].
+      destruct (getc_some ws (si + 3) ltac:(lia)) as (? & dg3 & ? & _ & _ & ->).
+      destruct (isdigit dg3); [discriminate|assumption].
+Qed.
+
+End Year.
+
+Section Year2.
+Variable isdigit : N -> bool.
+
+Lemma detect_year_spec : forall prefixes s p f,
+  Forall (fun q => len q = 2) prefixes -> detect_year isdigit prefixes s = DYes p f ->
+  exists prefix l1 c2 c3 l3, In prefix prefixes /\ s = l1 ++ f ++ l3 /\ f = prefix ++ [c2; c3] /\
+    isdigit c2 = true /\ isdigit c3 = true /\ p = osec l1 ++ [(f, Some LY)] ++ osec l3.
+Proof.
+  induction prefixes as [|q ps IH]; intros s p f Hq H; cbn [detect_year] in H; [discriminate|].
+  inversion Hq as [|? ? Hq2 Hps]; subst.
+  destruct (year_loop isdigit (S (S (length s))) s q 0) as [[i|]|] eqn:Ey; [| |discriminate].
+  - apply year_loop_spec in Ey; [|assumption|lia].
+    destruct Ey as (l1 & c2 & c3 & l3 & Es & Hl1 & _ & H2 & H3).
+    assert (Hmid : len (q ++ [c2; c3]) = 4) by (rewrite len_app, !len_cons, len_nil; lia).
+    assert (Esl : slice s i (i + 4) = q ++ [c2; c3]).
+    { rewrite Es, <- Hl1, <- Hmid. apply slice_app3. }
+    rewrite Esl in H. simpl nonempty in H.
+    destruct (nonempty (q ++ [c2; c3])) eqn:En; [|destruct q; discriminate].
+    injection H as <- <-. exists q, l1, c2, c3, l3. repeat split; try assumption; [now left|].
+    rewrite <- Hl1. rewrite (pre_osec s l1 _ Es). f_equal. f_equal.
+    rewrite Es. replace (len l1 + 4) with (len l1 + len (q ++ [c2; c3])) by lia.
+    rewrite sfrom_app3. pose proof (len_nonneg l3).
+    destruct l3 as [|c l3].
+    + match goal with |- context [?a <? ?b] => replace (a <? b) with false
+        by (symmetry; apply Z.ltb_ge; rewrite ?len_app, ?len_cons, ?len_nil in *; lia) end. reflexivity.
+    + pose proof (len_nonneg l3).
+      match goal with |- context [?a <? ?b] => replace (a <? b) with true
+        by (symmetry; apply Z.ltb_lt; rewrite ?len_app, ?len_cons, ?len_nil in *; lia) end. reflexivity.
+  - destruct (IH _ _ _ Hps H) as (prefix & l1 & c2 & c3 & l3 & Hin & ?). exists prefix, l1, c2, c3, l3.
+    split; [now right|assumption].
+Qed.
+
+Lemma detect_year_no_err : forall prefixes s, detect_year isdigit prefixes s <> DErr.
+Proof.
+  induction prefixes as [|q ps IH]; intros s; cbn [detect_year]; [discriminate|].
+  destruct (year_loop isdigit (S (S (length s))) s q 0) as [[i|]|] eqn:Ey.
+  - destruct (nonempty (slice s i (i + 4))); discriminate.
+  - apply IH.
+  - exfalso. revert Ey. apply year_loop_fuel; [lia|]. unfold len. lia.
+Qed.
+
+End Year2.
